@@ -122,12 +122,19 @@ CHECKS = {
             "max_paths": {"quick": 60000, "thorough": 800000},
             "timeout": {"quick": "10m", "thorough": "90m"},
             "covers": {"VerifSysHeal": ["write", "cut", "heal", "restart", "restart-wiped", "healed"]},
+        }, {
+            "pkg": ODB, "funcs": ["VerifSysOpenRace"],
+            "params": {"quick": {"P": 1}, "thorough": {"P": 2}},
+            "max_paths": {"quick": 60000, "thorough": 800000},
+            "timeout": {"quick": "10m", "thorough": "60m"},
+            "covers": {"VerifSysOpenRace": ["opened"]},
         }],
         "assumptions": [
             "closed system of two replicas inside one interpreter, each a real BaseStore with replication enabled over stub pubsub / direct channel and its own block store (blocks of the connected peer are fetchable)",
             "fault plan (symbolic): STEPS steps, each a write on a or b whose announcement (the payload the real handleEventWrite published on the topic) is delivered to the other side or lost, or a restart of a (Close, fresh store over the same cache and blocks, real Load)",
             "final phase: writes stop; each side observes the other joining its topic (EventPubSubJoin on the watcher channel); the payload each real exchangeHeads sends on the direct channel is decoded and handed to the other store's Sync, as baseorbitdb's handler does; run to quiescence",
             "oracle: both replicas hold every acknowledged write and list identical ordered logs",
+            "open race (VerifSysOpenRace): a peer opens the database while a replica holding 1..2 acknowledged writes is connected and idle; the heads that replica sends on seeing the join may arrive before Open has returned: every schedule of the opening thread and the threads it starts with at most P preemptions; the opened replica must hold every acknowledged write at quiescence",
             "system harness (VerifSysHeal): PEERS real orbitDB INSTANCES (newOrbitDB, Create/Open, createStore, monitorDirectChannel, handleEventExchangeHeads, the stores' storeListener / pubSubChanListener / exchangeHeads) wired by the real code over a simulated network (pubsub with join/leave notifications and fan-out, pairwise direct channel emitting on the receiver's bus, link cuts); fault plan of STEPS steps: write on any peer (each publication towards each subscriber delivered / lost / duplicated), cut or heal a link, restart a peer over its directory, or restart a peer that has not written with its storage lost (in-memory cache); final phase: every link re-established; blocks of a connected peer are fetchable",
         ],
         "outside": ["more than PEERS replicas", "reordered announcements (delivery is order-insensitive by C01)", "liveness of real pubsub / bitswap: the claim is 'given the join notifications and fetchable blocks, one exchange suffices'", "composition to >2 replicas is a paper argument"],
